@@ -241,6 +241,27 @@ func c13Gen(t *rapid.T) c13Case {
 		plat, plon = sphere.Destination(lat, lon, pd, brg).LatLon()
 		c.R2 = F(pd - r + rapid.SampledFrom([]float64{-5, -1.5, 1.5, 5}).Draw(t, "slack"))
 	}
+	if rapid.IntRange(0, 11).Draw(t, "zeror") == 0 {
+		// a circle of radius zero (or next to nothing) and a point on its centre's parallel or meridian: one of the two
+		// terms of the distance vanishes, the other must still keep the point out
+		c.Kind = "zero-radius"
+		r = rapid.SampledFrom([]float64{0, 0, 1e-9, 0.01}).Draw(t, "zr")
+		off := rapid.SampledFrom([]float64{1e-4, 0.01, 1, 40, 90, 179}).Draw(t, "zoff")
+		if rapid.Bool().Draw(t, "zneg") {
+			off = -off
+		}
+		plat, plon = lat, lon
+		if rapid.Bool().Draw(t, "zparallel") {
+			plon = lon + off
+			if plon > 180 {
+				plon -= 360
+			} else if plon < -180 {
+				plon += 360
+			}
+		} else {
+			plat = math.Max(-90, math.Min(90, lat+off/2))
+		}
+	}
 	c.Lat, c.Lon, c.R, c.PLat, c.PLon = F(lat), F(lon), F(r), F(plat), F(plon)
 	c.Steps = rapid.SampledFrom([]int{-1, 0, 2, 3, 4, 5, 6, 7, 10, 64, 64, 64, 99, 4096}).Draw(t, "steps")
 	return c
